@@ -154,6 +154,12 @@ theorem digest_length (d L r : Nat) (key M : List Nat) (bitlen : Option Nat)
   intro h8
   exact Md6Mode.chop_low_bits d h8 _
 
+/-- the specification's own level loop is total: its iteration bound is never exhausted (the documented default `[]`
+    is not produced) — the root is exactly one 16-word chaining value, for EVERY message, bit length, L and r ≥ 1 -/
+theorem spec_root_is_one_chaining_value (P : Spec.Md6.Params) (hr : 1 ≤ P.r) (M : List Nat) (m : Nat)
+    (hm : m ≤ 8 * M.length) : (Spec.Md6.levels P (M.length + 1) 1 M m).length = Spec.Md6.c :=
+  Md6Mode.levels_length P hr M.length 1 M m (by omega)
+
 /-- an explicit bit length larger than the message is refused in every mode -/
 theorem bitlen_beyond_message_refused (d L : Nat) (r : Option Nat) (key M : List Nat) (b : Nat)
     (hb : 8 * M.length < b) : ∃ e, Md6.call (Md6.new d key L r) M (some b) = .error e := by
